@@ -93,6 +93,7 @@ func TestCampaign(t *testing.T) {
 	}
 	tier := envOr("VERIF_TIER", "quick")
 	w := world(t)
+	shiftedWorldT = t
 	prof := spec.Profile(tier)
 	st := &ShardStats{Property: prop, Rule: spec.Rule, Tier: tier, Labels: map[string]int{}, LabelHits: map[string]int{}, Known: map[string]int{}, MaxErrOverTol: map[string]float64{}, Extra: map[string]int{}, Errs: map[string]int{}}
 	seen := map[string]bool{}
@@ -229,6 +230,7 @@ func TestReplay(t *testing.T) {
 	if spec == nil {
 		t.Fatalf("unknown property %s", prop)
 	}
+	shiftedWorldT = t
 	x, v := replayOps(world(t), spec, rf.Ops)
 	if os.Getenv("VERIF_VERBOSE") != "" {
 		for i, op := range x.Log {
